@@ -168,3 +168,130 @@ func (c *Ctx) NoRecursiveLock(prop string) {
 	c.R.Floor(rule, "mutex acquisitions on receiver fields or package variables", n, 10)
 	_ = fmt.Sprint
 }
+
+// ImportUnderSessionLock (C12.O7 import.under-session-lock): a wallet keeps one index of its accounts; importing an account
+// reads the index, adds the entry and writes the whole index back. Two imports into one wallet that overlap on an instance
+// lose one entry: the generation reports success everywhere, yet that instance cannot find its share under the name. On the
+// pinned design the process service's session mutex is what serialises them: every call of the wallet's distributed-account
+// importer in the process service is made with a mutex field of the service held - in the calling function itself (every
+// path from its entry passes the Lock, no non-deferred Unlock in between), or in each of its package callers.
+func (c *Ctx) ImportUnderSessionLock(prop string) {
+	rule := "C12.O7 import.under-session-lock"
+	p := c.Proc(prop + ".anchors")
+	if !p.OK() {
+		return
+	}
+	pkg := p.Impl.Obj().Pkg().Path()
+	isSyncCall := func(ins ssa.Instruction, names ...string) (ssa.Value, bool) {
+		ci, ok := ins.(ssa.CallInstruction)
+		if !ok {
+			return nil, false
+		}
+		if _, isDefer := ins.(*ssa.Defer); isDefer {
+			return nil, false
+		}
+		f := ci.Common().StaticCallee()
+		if f == nil || f.Pkg == nil || f.Pkg.Pkg.Path() != "sync" || f.Signature.Recv() == nil {
+			return nil, false
+		}
+		for _, n := range names {
+			if f.Name() == n {
+				return ci.Common().Args[0], true
+			}
+		}
+		return nil, false
+	}
+	recvMutex := func(fn *ssa.Function, mu ssa.Value) string {
+		fa, ok := mu.(*ssa.FieldAddr)
+		if !ok || fn.Signature.Recv() == nil || len(fn.Params) == 0 || fa.X != ssa.Value(fn.Params[0]) {
+			return ""
+		}
+		return fieldNameOf(fa)
+	}
+	// held(fn, ins): the name of a receiver mutex that is held on every path reaching ins, or ""
+	held := func(fn *ssa.Function, ins ssa.Instruction) string {
+		fields := map[string]bool{}
+		for _, b := range fn.Blocks {
+			for _, i := range b.Instrs {
+				if mu, ok := isSyncCall(i, "Lock"); ok {
+					if f := recvMutex(fn, mu); f != "" {
+						fields[f] = true
+					}
+				}
+			}
+		}
+		var names []string
+		for f := range fields {
+			names = append(names, f)
+		}
+		sort.Strings(names)
+		for _, f := range names {
+			isLock := func(i ssa.Instruction) bool {
+				mu, ok := isSyncCall(i, "Lock")
+				return ok && recvMutex(fn, mu) == f
+			}
+			if x, _ := an.Cut(an.CutQuery{From: an.Entry(fn), Target: func(i ssa.Instruction) bool { return i == ins }, AcceptInstr: isLock}); x != nil {
+				continue // a path reaches it without the lock
+			}
+			released := false
+			for _, b := range fn.Blocks {
+				for _, i := range b.Instrs {
+					if mu, ok := isSyncCall(i, "Unlock"); ok && recvMutex(fn, mu) == f {
+						if x, _ := an.Cut(an.CutQuery{From: an.After(i), Target: func(j ssa.Instruction) bool { return j == ins }, AcceptInstr: isLock}); x != nil {
+							released = true
+						}
+					}
+				}
+			}
+			if !released {
+				return f
+			}
+		}
+		return ""
+	}
+	var heldAlong func(fn *ssa.Function, ins ssa.Instruction, depth int) (string, string)
+	heldAlong = func(fn *ssa.Function, ins ssa.Instruction, depth int) (string, string) {
+		if f := held(fn, ins); f != "" {
+			return f, ""
+		}
+		if depth >= 3 {
+			return "", "no session mutex is held in " + Fn(fn) + " or its callers"
+		}
+		callers := c.staticCallers()[fn]
+		n := 0
+		field := ""
+		for _, cs := range callers {
+			if prog.IsTestish(prog.PkgPathOf(cs.Parent())) || prog.PkgPathOf(cs.Parent()) != pkg {
+				continue
+			}
+			n++
+			f, why := heldAlong(cs.Parent(), cs.(ssa.Instruction), depth+1)
+			if f == "" {
+				return "", why
+			}
+			field = f
+		}
+		if n == 0 {
+			return "", "the import in " + Fn(fn) + " runs without a session mutex held, and nothing in the package that calls it holds one"
+		}
+		return field, ""
+	}
+	n := 0
+	for _, fn := range c.P.ModuleFuncs() {
+		if prog.PkgPathOf(fn) != pkg || fn.Blocks == nil {
+			continue
+		}
+		for _, ci := range Calls(fn, func(ci ssa.CallInstruction) bool {
+			cc := ci.Common()
+			return cc.IsInvoke() && namedIs(cc.Value.Type(), pkgWTypes, "WalletDistributedAccountImporter")
+		}) {
+			n++
+			if f, why := heldAlong(fn, ci.(ssa.Instruction), 0); f == "" {
+				c.R.Fail(rule, Fn(fn), c.Pos(ci), "the distributed account is imported into the wallet without the service's session mutex held: two commits for different accounts of one wallet overlapping on this instance overwrite each other's index write - "+why, "ImportDistributedAccount only with the session mutex held", nil)
+			} else {
+				c.R.OK(rule, Fn(fn), c.Pos(ci), "the import runs with "+f+" held")
+			}
+		}
+	}
+	c.R.Floor(rule, "distributed account imports in the process service", n, 1)
+}
